@@ -146,21 +146,21 @@ def abs_payload(kind: str, payload: Any, base: dict | None) -> dict:
         return {"merge": payload}
     ops = list(payload or [])
     if not ops or ops[0].get("op") != "test" or ops[0].get("path") != "/metadata/resourceVersion":
-        return {"raw": ops}
+        return {"raw": ops, "why": "no leading resourceVersion test"}
     try:
         test = int(ops[0]["value"])
     except (TypeError, ValueError):
-        return {"raw": ops}
+        return {"raw": ops, "why": "no leading resourceVersion test"}
     rest = ops[1:]
     paths = [op.get("path", "") for op in rest] + [op["from"] for op in rest if "from" in op]
     other = [p for p in paths if not (p == "/metadata/finalizers" or p.startswith("/metadata/finalizers/")
                                       or p == "/status" or p.startswith("/status/"))]
     if other or base is None:
-        return {"raw": ops}
+        return {"raw": ops, "why": "ops outside finalizers/status"}
     try:
         eff = rfc.apply_json_patch(base, rest)
     except rfc.PatchError:
-        return {"raw": ops}
+        return {"raw": ops, "why": "ops do not apply to the freshest body the client has seen"}
     fins = list((eff.get("metadata") or {}).get("finalizers") or []) if any(p.startswith("/metadata/finalizers") for p in paths) else None
     status = eff.get("status") if any(p.startswith("/status") for p in paths) else None
     return {"test": test, "fins": fins, "status": status}
@@ -518,8 +518,8 @@ def oracle_call(ctx: Ctx, case: Any, i: int, o: dict, sub: bool, where: str = "p
     for r in js:
         pl = r["payload"]
         if "raw" in pl:
-            fail(f"JSON-patch without a leading resourceVersion test (or touching foreign paths): {r['raw_payload']}",
-                 {"site": "patching.patch_obj", "shape": "JSON-patch not guarded by a resourceVersion test"})
+            fail(f"malformed JSON-patch ({pl.get('why')}): {r['raw_payload']}",
+                 {"site": "patching.patch_obj", "shape": "JSON-patch: " + str(pl.get("why"))})
             continue
         pre, post = r["pre"], r["post"]
         if r["code"] == 404 or pre is None:
